@@ -48,7 +48,7 @@ REQUIRED_BRANCHES = ['flag0', 'flag1', 'flag2', 'flag3', 'flag4', 'flag9', 'conf
                      'ignored_zero_flux_zero_err', 'ignored_inf', 'ignored_nan', 'ignored_huge_tiny',
                      'exact_tie_indep', 'exact_tie_dist', 'exact_tie_model',
                      'indep_files', 'indep_cube_wav', 'indep_cube_wav_memmap',
-                     'same_object_valid', 'same_object_flux', 'same_object_error', 'same_object_combined']
+                     'low_snr', 'same_object_valid', 'same_object_flux', 'same_object_error', 'same_object_combined']
 ASSUMPTIONS = ['IEEE rounding is not modelled: model comparison tolerance 1e-9 x condition number; paired real runs are '
                'compared to 1e-12 relative (they are bit-identical on the unchanged tree)',
                'limit decisions closer than 1e-9 to the threshold are skipped (counted as margin_relaxed) - except constructed '
@@ -78,6 +78,10 @@ DIRECTED = [
 DIRECTED_LIMITS = {4: ('violated', 1.), 5: ('violated', 1.), 6: ('violated', 0.5), 7: ('ok', 0.9),
                    14: ('violated', 0.), 15: ('ok', 1.), 16: ('violated', 1.), 17: ('violated', 0.99),
                    18: ('violated', 1.), 19: ('violated', 1.)}
+
+
+# directed vectors whose flag-1 bands all get an error larger than the flux
+LOW_SNR_DIRECTED = {0, 2, 3, 8}
 
 
 def all_vectors():
@@ -127,7 +131,7 @@ def benign_values(f):
     return [float('%.3g' % (abs(f) * 1.7)), float('%.3g' % (abs(f) * 0.13))]
 
 
-def gen_source(rng, vec, models, wavs, directed=None, ign=None):
+def gen_source(rng, vec, models, wavs, directed=None, ign=None, lowsn=False):
     """underlying photometry for one flag vector: linear (F, sigma) for every band, limit (flux, confidence),
     two independent draws of ignored content"""
     nb = len(vec)
@@ -137,7 +141,11 @@ def gen_source(rng, vec, models, wavs, directed=None, ign=None):
     for j in range(nb):
         base = models[m][j] * 10 ** (-2 * sc0) * 10 ** rng.uniform(-0.25, 0.25)
         f = float('%.4g' % base)
-        s = float('%.3g' % (f * nice(rng, 2e-3, 0.5, 2)))
+        # relative errors from 0.2 % to 50 %, and a share of marginal points whose error exceeds the flux (S/N < 1)
+        if lowsn or rng.random() < 0.15:
+            s = float('%.3g' % (f * nice(rng, 1.05, 4., 2)))
+        else:
+            s = float('%.3g' % (f * nice(rng, 2e-3, 0.5, 2)))
         lin.append([f, s])
         if directed is not None:
             how, conf = directed
@@ -200,7 +208,7 @@ def gen_case(rng, vectors, directed_ids=None, fmt=None):
             ign = (IGNORED_ALPHABET[k], IGNORED_ALPHABET[(k + 11) % len(IGNORED_ALPHABET)])
         elif did in DIRECTED_LIMITS:
             d = DIRECTED_LIMITS[did]
-        sources.append(gen_source(rng, v, models, wavs, d, ign))
+        sources.append(gen_source(rng, v, models, wavs, d, ign, lowsn=(isinstance(did, int) and did in LOW_SNR_DIRECTED)))
     if fmt is None:
         fmt = rng.choice(['files', 'files', 'cube_wav', 'cube_wav_memmap'])
     return dict(wavs=wavs, tab_w=tw, tab_chi=chi, models=models, av=av, kind=kind, fmt=fmt,
@@ -634,6 +642,8 @@ def check_mode(case, mode, fitter, names, use_model, branches, stats):
         tie_name = names[src['tie']['m']] if 'tie' in src else None
         for f in S['flags']:
             branches.add('flag%d' % f)
+        if any(f == 1 and e > x for f, x, e in zip(S['flags'], S['flux'], S['err'])):
+            branches.add('low_snr')
         for j, f in enumerate(S['flags']):
             if f in (0, 9):
                 for ign in (src['ign_a'][j], src['ign_b'][j]):
